@@ -8,6 +8,8 @@ var BaseTypes = map[string]*SNode{
 	"@a": O([]string{`"x"`}, []*SNode{L(`1`)}),
 	"@b": L(`"s"`),
 	"@c": O([]string{`"y"`}, []*SNode{L(`"z"`)}),
+	"@l": A([]*SNode{L(`1`)}),
+	"@n": L(`5`, Ru("min", "1")),
 }
 var BaseEnums = map[string]string{"@e": `[1, 2, "ab", true, null]`}
 
@@ -45,7 +47,10 @@ var leafSpecs = []leafSpec{
 	{'r', `@a  |	@c | @b`, nil},
 	{'o', ``, []SRule{Ru("additionalProperties", "true"), Ru("additionalProperties", "false"), Ru("additionalProperties", `"string"`), Ru("additionalProperties", `"@a"`), Ru("additionalProperties", `"any"`),
 		Ru("allOf", `"@a"`), Ru("allOf", `["@a", "@c"]`), Ru("nullable", "true"), Ru("type", `"object"`), Ru("or", `[{type: "object"}, {type: "string"}]`), Ru("or", `["uri", "object"]`), Ru("type", `"@a"`), Ru("type", `"any"`)}},
-	{'a', ``, []SRule{Ru("minItems", "0"), Ru("maxItems", "0"), Ru("minItems", "1"), Ru("maxItems", "3"), Ru("maxItems", big20), Ru("maxItems", maxU64), Ru("type", `"array"`), Ru("nullable", "true"), Ru("or", `["array", "@a"]`), Ru("type", `"any"`)}},
+	{'a', ``, []SRule{Ru("minItems", "0"), Ru("maxItems", "0"), Ru("minItems", "1"), Ru("maxItems", "3"), Ru("maxItems", big20), Ru("maxItems", maxU64), Ru("type", `"array"`), Ru("nullable", "true"), Ru("or", `["array", "@a"]`), Ru("type", `"any"`), Ru("type", `"@l"`), Ru("or", `["@l", "string"]`)}},
+	{'r', `@l`, []SRule{Ru("nullable", "true")}},
+	{'r', `@n | @l`, nil},
+	{'l', `7`, []SRule{Ru("type", `"@n"`), Ru("or", `["@n", "@b"]`)}},
 }
 
 var containerPools = map[byte][]SRule{
